@@ -20,7 +20,7 @@ def run(ck: Check):
     if os.path.exists(os.path.join(ROOT, "coq", "Properties", "C08.v")):
         obligations, discharged, axioms = standard_proof_step(ck)
     jobs = []
-    for k in range(ck.n(50, 1200)):
+    for k in range(ck.n(150, 2000)):
         m = G.gen_model(r, slices=r.choice([("F1",), ("F1", "F2"), ("F1", "F2", "F3"), ("F1", "F4")]))
         insts = [G.gen_instance(r, m, m["root"]) for _ in range(3)]
         cases = []
